@@ -94,7 +94,9 @@ def make_pycs(r, rnd):
         libs = rnd.sample(LIBS, 3) if quick else rnd.sample(LIBS, 24)
         d = os.path.join(r.wd, "pyc", v)
         rc, o, err = C.run_py(ORACLE_PYC, host=C.ORACLES[v], impl=False,
-                              stdin=json.dumps({"outdir": d, "stdlib": libs, "max_src": 25000 if quick else 60000}))
+                              stdin=json.dumps({"outdir": d, "stdlib": libs, "max_src": 25000 if quick else 60000,
+                                                # an int constant beyond the 4300-digit limit of int -> str conversion on 3.11+ hosts (2.7's test_long.py has 10**5000)
+                                                "extra_sources": [["hugeint", "big = 0x" + "f" * 5000 + "\nt = (1, 0x" + "e" * 4500 + ")\n"]]}))
         if "@@JSON@@" not in o:
             raise RuntimeError(f"oracle_pyc under {v} failed: {err[-800:]}")
         fs = json.loads(o.split("@@JSON@@")[1])
